@@ -247,6 +247,10 @@ def evaluate(case):
         return eval_timeout(case)
     if "zone_cut" in case:
         return eval_zone(case)
+    if "wide_anyorder" in case:
+        return eval_wide_anyorder(case)
+    if "long_run" in case:
+        return eval_long_run(case)
     ev = Eval()
     L = case["listing"]
     NV = norm_view(L)
@@ -371,8 +375,69 @@ def eval_zone(case):
 
 
 def _zone_worker(cut):
+    if isinstance(cut, str) and cut in LONG_RUNS:
+        case = {"long_run": cut}
+        return case, eval_long_run(case)
+    if isinstance(cut, str):
+        case = {"wide_anyorder": cut}
+        return case, eval_wide_anyorder(case)
     case = {"zone_cut": cut}
     return case, eval_zone(case)
+
+
+WIDE_KIDS = ["push", "push", "mov", "sub", "lea", "xor", "call"]
+LONG_RUNS = {"run-1001-of-1000": (1, 1000, 1001), "run-1003-of-1000": (1, 1000, 1003), "run-1000-of-999": (2, 999, 1000), "run-1002-of-0-1000": (0, 1000, 1002), "run-1000-of-1000": (1, 1000, 1000)}
+
+
+def eval_long_run(case):
+    """A repeated item whose upper bound lies at 999 / 1000 (the value JASM uses elsewhere as 'no limit') followed by more pattern, on
+    a run LONGER than the bound: the leftmost match starts where exactly max repetitions are left, not at the start of the run."""
+    ev = Eval()
+    tag = case["long_run"]
+    lo, hi, n = LONG_RUNS[tag]
+    NV = [("400000", "push", ["%rbp"])] + [(format(0x400001 + q, "x"), "nop", []) for q in range(n)] + [(format(0x400001 + n, "x"), "ret", []), (format(0x400002 + n, "x"), "nop", []), (format(0x400003 + n, "x"), "ret", [])]
+    pattern = [{"nop": {"times": {"min": lo, "max": hi}}}, "ret"]
+    spans = Ref(NV, True, True).spans(pattern)
+    res = run_all_modes(jasm_io.make_doc(pattern, True, True), render(NV), None, combos=[("list", "all", False), ("list", "first", False)])
+    ev.subcases = 2
+    if all(r[0] == "ok" for r in res.values()):
+        check_scan(ev, pattern, NV, res[("list", "all", False)][1], res[("list", "first", False)][1], spans, ctx={"long_run": tag})
+    elif any(r[0] == "exc" for r in res.values()):
+        ev.dev("exception", long_run=tag, error=[list(r[:2]) for r in res.values()])
+    else:
+        ev.inconclusive += 1
+    ev.tags = ["long-run", "long-run=" + tag]
+    ev.nontrivial = True
+    ev.keys = [("long-run", tag)]
+    return ev
+
+
+def eval_wide_anyorder(case):
+    """$and_any_order with seven children, two of them the same item (5040 orderings: a fixed handful of listings instead of the random
+    campaign).  A window in which every child's text occurs and every instruction fits some child, but with one push and two movs, is
+    not a match - each child is used exactly once; the genuine permuted window further on is."""
+    ev = Eval()
+    tag = case["wide_anyorder"]
+    ms = {"near-window-then-genuine": ["nop", "push", "mov", "mov", "sub", "lea", "xor", "call", "ret", "xor", "push", "call", "lea", "push", "sub", "mov", "ret"],
+          "near-window-only": ["push", "mov", "mov", "sub", "lea", "xor", "call", "ret"],
+          "two-genuine-adjacent": ["push", "push", "mov", "sub", "lea", "xor", "call", "call", "xor", "lea", "sub", "mov", "push", "push", "nop"],
+          "more-specific-child": ["push", "mov", "mov", "sub", "lea", "xor", "call", "ret"]}[tag]
+    kids = list(WIDE_KIDS) if tag != "more-specific-child" else [{"mov": ["rax"]}, "mov", "push", "sub", "lea", "xor", "call"]
+    NV = [(format(0x401000 + 3 * q, "x"), m, ["%rbx", "%rcx"] if m == "mov" else []) for q, m in enumerate(ms)]
+    pattern = [{"$and_any_order": kids}]
+    spans = Ref(NV, False, False).spans(pattern)
+    res = run_all_modes(jasm_io.make_doc(pattern), render(NV), None, combos=[("list", "all", False), ("list", "first", False)])
+    ev.subcases = 2
+    if all(r[0] == "ok" for r in res.values()):
+        check_scan(ev, pattern, NV, res[("list", "all", False)][1], res[("list", "first", False)][1], spans, ctx={"wide_anyorder": tag})
+    elif any(r[0] == "exc" for r in res.values()):
+        ev.dev("exception", wide_anyorder=tag, error=[list(r[:2]) for r in res.values()])
+    else:
+        ev.inconclusive += 1
+    ev.tags = ["wide-anyorder", "wide=" + tag]
+    ev.nontrivial = True
+    ev.keys = [("wide-anyorder", tag)]
+    return ev
 
 
 def extra(tier, seed, rep):
@@ -382,8 +447,10 @@ def extra(tier, seed, rep):
     from vlib import longlist
 
     with mp.get_context("fork").Pool(16, maxtasksperchild=1) as pool:
-        for case, ev in pool.imap_unordered(_zone_worker, sorted(longlist.CUTS, reverse=True), chunksize=1):
+        for case, ev in pool.imap_unordered(_zone_worker, ["near-window-then-genuine", "near-window-only", "two-genuine-adjacent", "more-specific-child"] + sorted(LONG_RUNS) + sorted(longlist.CUTS, reverse=True), chunksize=1):
             rep.add_eval(case, ev)
+    rep.exhaustive_parts.append("5 runs of 1000-1003 instructions against repetition bounds of 999 / 1000 followed by more pattern")
+    rep.exhaustive_parts.append("4 fixed listings for a 7-child $and_any_order with a doubled / more specific child (windows that fit child by child but not one-to-one)")
     for k_ in (0, 1, 2, 5, 6, 9):
         for search in ("all", "first"):
             case = {"timeout_after": k_, "search": search}
